@@ -404,6 +404,7 @@ def run(ctx):
     for cname in ('QuadraticBezier', 'CubicBezier'):
         fi = mdl.func('path.%s.reversed' % cname)
         _check_shared_cache(ctx, fi, mdl.cls('path.' + cname))
+        _copy_inherits_no_stale_cache(ctx, mdl, cname, fi)
 
     # ------------------------------------------------------------------ R16.6 who-may-write
     hits = _foreign_writes(mdl.modules.values(), mdl)
@@ -1250,6 +1251,49 @@ def _history_equals_fresh(ctx, mdl, cname, fi, rule, record=True):
         ctx.record(rule, 'path.%s.%s' % (cname, fi.name), 'query, reassign a control point, query again == fresh segment', verdict,
                    detail='; '.join(details[:2]), where=where(fi))
     return verdict
+
+
+def _copy_inherits_no_stale_cache(ctx, mdl, cname, fi):
+    """measure, reassign one control point in place, take the derived copy (reversed()), measure the copy: the answer is the one a copy
+    of a freshly built segment gives.  A copy that is handed its parent's length cache must be handed a VALID one."""
+    cls = mdl.cls('path.' + cname)
+    fields = cls.method('__init__').params()[1:]
+    n = len(fields)
+    # concrete control points in general position (the closed-form quadratic length is then a constant expression, no case forks)
+    P = [Rat.const(z) for z in (0, 1 + 2j, 3 - 1j, 5 + 1j)][:n - 1] + [Rat.const(7 + 3j)]
+    NEW = Rat.const(-2 + 9j)
+    bad = []
+    und = None
+    for k, field in enumerate(fields):
+        for first in ((), (0, 1), (1, 0)):
+            def th(it, k=k, field=field, first=first):
+                seg = it.construct('path.' + cname, *P)
+                it.call_method(seg, 'length', *first)
+                it.setattr(seg, field, NEW)
+                r = it.call_method(seg, fi.name)
+                fresh = it.construct('path.' + cname, *[NEW if j == k else P[j] for j in range(n)])
+                rf = it.call_method(fresh, fi.name)
+                return it.call_method(r, 'length'), it.call_method(rf, 'length'), it.call_method(r, 'length', 1, 0), it.call_method(rf, 'length', 1, 0)
+            seglen = lambda it, a_, k_: Rat.sym('SEGLEN') + to_rat(it.call_method(a_[0], 'point', Rat.const(Fr(1, 3)))).real() + \
+                to_rat(a_[1] if len(a_) > 1 else k_.get('t0', 0)) * 7 + to_rat(a_[2] if len(a_) > 2 else k_.get('t1', 1)) * 11
+            try:
+                paths = explore(mdl, th, {'globals': {('*', '_quad_available'): False}, 'call_hooks': {'path.segment_length': seglen},
+                                          'ext_hooks': {'builtins.hash': lambda it, a_, k_: 7}})
+            except Undecidable as e:
+                und = str(e)
+                continue
+            for pth in paths:
+                if pth.raised is not None:
+                    continue
+                a1, f1, a2, f2 = pth.value
+                if not (_struct_equal(a1, f1) and _struct_equal(a2, f2)):
+                    bad.append('length%r; seg.%s = z; seg.%s().length() answers for the old control points' % (tuple(first), field, fi.name))
+                    break
+    label = 'measure, reassign a control point, %s(), measure the copy == copy of a fresh segment' % fi.name
+    if und and not bad:
+        ctx.undecided('R16.5', fi.qualname, label, und, where=where(fi))
+    else:
+        ctx.record('R16.5', fi.qualname, label, not bad, detail='; '.join(bad[:3]), where=where(fi))
 
 
 def _path_histories(ctx, mdl, PathC):
